@@ -281,7 +281,8 @@ func TestLevelText(t *testing.T) {
 	customs := []vals{{"TRACE", "DEBUG", "INFO", "WARN", "ERROR", "FATAL", "PANIC"}, {"Trace", "Debug", "Info", "Warning", "Err", "Fatal", "Panic"}, {"spür", "ÄRGER", "Größe", "wärn", "FEHLER", "tödlich", "PÄNIK"}, {"t", "d", "i", "w", "e", "f", "p"},
 		// numeric texts that are not the levels' own values (syslog-like severities; all distinct)
 		{"8", "7", "6", "4", "3", "2", "1"}, {"-1", "00", "+1", "2 ", "0x3", "4.0", "05"}}
-	funcs := map[string]func(zerolog.Level) string{"String": func(l zerolog.Level) string { return l.String() }, "upper": func(l zerolog.Level) string { return strings.ToUpper(l.String()) }, "bracket": func(l zerolog.Level) string { return "[" + l.String() + "]" }}
+	funcs := map[string]func(zerolog.Level) string{"String": func(l zerolog.Level) string { return l.String() }, "upper": func(l zerolog.Level) string { return strings.ToUpper(l.String()) }, "bracket": func(l zerolog.Level) string { return "[" + l.String() + "]" },
+		"padded": func(l zerolog.Level) string { return fmt.Sprintf("%-7s", l.String()) }, "indented": func(l zerolog.Level) string { return "  " + l.String() + "\t" }}
 	for ci, cv := range customs {
 		zerolog.LevelTraceValue, zerolog.LevelDebugValue, zerolog.LevelInfoValue, zerolog.LevelWarnValue, zerolog.LevelErrorValue, zerolog.LevelFatalValue, zerolog.LevelPanicValue = cv.t, cv.d, cv.i, cv.w, cv.e, cv.f, cv.p
 		for fname, fn := range funcs {
